@@ -88,6 +88,12 @@ class KnownFindings(object):
             if e["rule"] != finding.rule:
                 continue
             for k in e.get("keys", [e.get("key")] if e.get("key") else []):
+                # a key may name the *subject* of the finding (what is evaluated) instead of
+                # the function it was confirmed in: the defect moves with the code
+                if k.get("subject") and k.get("file") == finding.file and \
+                        (finding.extra or {}).get("subject") == k["subject"] and \
+                        k.get("construct", finding.construct) == finding.construct:
+                    return e
                 if k.get("file") == finding.file and k.get("construct") == finding.construct:
                     # coarse constructs (E7) are tied to the function they were confirmed in
                     if k.get("strict_function") and k.get("function") != finding.function:
